@@ -255,7 +255,19 @@ func VerifH_ws_stream() {
 			op = 2 // a data message sent as a binary frame is a message all the same
 			vfCover("binary-frame")
 		}
-		stream = append(stream, vfClientFrame(op, []byte(`{"g":"`+v+`"}`))...)
+		text := []byte(`{"g":"` + v + `"}`)
+		if vfBool() {
+			// one message in two frames (FIN=0, then a continuation): each frame may be within the
+			// receive limit while the message is not
+			h := len(text) / 2
+			first := vfClientFrame(op, text[:h])
+			first[0] &^= 0x80
+			stream = append(stream, first...)
+			stream = append(stream, vfClientFrame(0, text[h:])...)
+			vfCover("fragmented-message")
+		} else {
+			stream = append(stream, vfClientFrame(op, text)...)
+		}
 	}
 	stream = append(stream, vfClientFrame(8, nil)...)
 	conn := &vfConn{in: stream}
